@@ -10,6 +10,17 @@ NOTE = ('trusted: llsymex IR semantics (validated by native replay of explored p
         'constant-hash stub for RandomState, single thread, opt-level 0 IR; bounds per evidence.coverage.bounds')
 
 CLAIMED = {
+    'C06': ('4.C06', 'every str_* search/substring/replace function explored on all paths for every length combination within the bound, all '
+            'characters and all i32 arguments symbolic, against branch-free transcriptions of the SMT-LIB 2.6 definitions'),
+    'C08': ('4.C08', 'parse_smt_literal on all texts of up to 4/5 symbolic ASCII bytes plus escape templates against an independent grammar-level '
+            'decoder; Display through the real core::fmt on up to 2/3 symbolic code points plus escape-spelling templates, with printable-ASCII, '
+            'quote-doubling and parse round-trip assertions'),
+    'C09': ('4.C09', 'lexicographic order laws and definitional oracle on triples of symbolic strings; str_to_int for every length 0..11 with symbolic '
+            'characters in both build configurations (IR with overflow checks on and off), panics required exactly on overflow; from_int / codes symbolic'),
+    'C15': ('4.C15', 'LoopRange contains/includes/add/shift decided at full u32 width; scale for a list of concrete k with full-width parameters; mul and '
+            'right_mul_is_exact against the union-of-multiples definition with parameters bounded in width'),
+    'C17': ('4.C17', 'every public SmtString constructor on a symbolic u32 (full range) or a symbolic Rust char over all scalar values; is_good and the '
+            'replacement rule asserted; results usable by ReManager::str without panic'),
     'C12': ('4.C12', 'merge_partitions explored on every feasible path for n x m <= 2x2 (quick) / 3x3 (thorough) symbolic intervals; refinement, '
             'maximality on adjacent characters, complement = intersection with least witness, well-formedness; algebraic laws and '
             'merge_partition_list order independence on triples of partitions'),
